@@ -555,20 +555,7 @@ func newC13Model() *c13Model {
 	return &c13Model{contracts: make(map[string]string)}
 }
 
-// ccNoBatchDB hides the bolt backend's Batch method so that kvdb.Batch falls
-// back to a plain Update: same atomicity, without bbolt's 10ms batch timer.
-type ccNoBatchDB struct{ kvdb.Backend }
-
-func c13OpenDB(path string) (kvdb.Backend, error) {
-	db, err := kvdb.Create(
-		kvdb.BoltBackendName, path, true, kvdb.DefaultDBTimeout, false,
-	)
-	if err != nil {
-		return nil, err
-	}
-
-	return ccNoBatchDB{db}, nil
-}
+func c13OpenDB(path string) (kvdb.Backend, error) { return ccOpenDB(path) }
 
 func TestVerifC13LogModel(t *testing.T) {
 	st := vstats.New("TestVerifC13LogModel")
